@@ -11,6 +11,7 @@ func init() {
 	vxRegister("VX_C11_ThriftRoundTrip", VX_C11_ThriftRoundTrip)
 	vxRegister("VX_C11_EncodingsIndependent", VX_C11_EncodingsIndependent)
 	vxRegister("VX_C11_ThriftGarbage", VX_C11_ThriftGarbage)
+	vxRegister("VX_C11_PlainWindow", VX_C11_PlainWindow)
 }
 
 // vxTStruct is a hand-written thrift struct: 1: string text, 2: i32 num.
@@ -149,4 +150,27 @@ func VX_C11_ThriftGarbage(args []int) {
 	d := new(vxTStruct)
 	ThriftCodec{}.Unmarshal(in, d)
 	vxCover("c11.thrift.garbage")
+}
+
+// VX_C11_PlainWindow: decoding into a destination that is a window of a larger
+// buffer (spare capacity behind it) never writes outside the destination
+// value, whatever the length of the input. args: window, nIn, kind(0 []byte value, 1 *[]byte)
+func VX_C11_PlainWindow(args []int) {
+	win, n, kind := args[0], args[1], args[2]
+	frame := []byte("HEADneighbour-data")
+	guard := append([]byte{}, frame...)
+	in := vxBytes("in", n)
+	c := PlainCodec{}
+	dst := frame[:win]
+	if kind == 0 {
+		c.Unmarshal(in, dst)
+		// a []byte passed by value can only be filled up to its length
+		for k := win; k < len(frame); k++ {
+			vxAssert(frame[k] == guard[k], "decoding into a byte slice never writes outside the destination value")
+		}
+	} else {
+		err := c.Unmarshal(in, &dst)
+		vxAssert(err == nil && bytes.Equal(dst, in), "decoding into a *[]byte yields exactly the input")
+	}
+	vxCover("c11.plain.window")
 }
